@@ -12,6 +12,9 @@ func init() {
 			readerDiscardRules(c, "C16")
 			writerMethodRules(c, "C16")
 			writerWriteRules(c, "C16")
+			c01Frames(c)
+			helperReadDataRules(c, "C16")
+			helperReadMessageRules(c, "C16")
 		},
 	})
 }
